@@ -45,6 +45,36 @@ pub struct RenderCase {
     pub radius: usize,
     pub with_snippet: bool,
     pub entry: REntry,
+    /// reader entries only: the text arrives as UTF-16 (Some(big_endian)) with a byte-order mark, so the
+    /// recent-bytes window in front of the decoder holds UTF-16
+    #[serde(default)]
+    pub utf16: Option<bool>,
+}
+
+/// the bytes a reader entry delivers
+fn reader_bytes(c: &RenderCase) -> Vec<u8> {
+    match (c.utf16, c.doc.as_str()) {
+        (Some(be), Some(text)) => crate::prop::c10::to_utf16(text, be).0,
+        _ => c.doc.0.clone(),
+    }
+}
+
+/// the text that the first `pos` delivered bytes hold
+fn delivered_text(c: &RenderCase, pos: usize) -> Vec<u8> {
+    let raw = reader_bytes(c);
+    let raw = &raw[..pos.min(raw.len())];
+    match c.utf16 {
+        Some(be) if c.doc.as_str().is_some() => {
+            let units: Vec<u16> = raw
+                .get(2..)
+                .unwrap_or(&[])
+                .chunks_exact(2)
+                .map(|p| if be { u16::from_be_bytes([p[0], p[1]]) } else { u16::from_le_bytes([p[0], p[1]]) })
+                .collect();
+            String::from_utf16_lossy(&units).into_bytes()
+        }
+        _ => raw.to_vec(),
+    }
 }
 
 #[derive(Debug, Deserialize)]
@@ -140,7 +170,7 @@ fn parse(c: &RenderCase) -> Option<Result<(), serde_saphyr::Error>> {
                 },
                 REntry::Reader { chunking, faults } => {
                     let rd = SimReader::new(
-                        &c.doc.0,
+                        &reader_bytes(c),
                         ReaderScript {
                             chunking: Some(chunking.clone()),
                             faults: faults.clone(),
@@ -166,7 +196,7 @@ fn parse(c: &RenderCase) -> Option<Result<(), serde_saphyr::Error>> {
             }
             (REntry::Reader { chunking, faults }, t) => {
                 let rd = SimReader::new(
-                    &c.doc.0,
+                    &reader_bytes(c),
                     ReaderScript {
                         chunking: Some(chunking.clone()),
                         faults: faults.clone(),
@@ -330,7 +360,7 @@ pub fn exec(c: &RenderCase, st: &mut Stats) -> Vec<Viol> {
         match l.as_ref() {
             Some(rd) => {
                 let st = rd.st.borrow();
-                if st.sticky.is_some() || st.forced_eof { c.doc.0[..st.pos.min(c.doc.0.len())].to_vec() } else { c.doc.0.clone() }
+                if st.sticky.is_some() || st.forced_eof { delivered_text(c, st.pos) } else { c.doc.0.clone() }
             }
             None => c.doc.0.clone(),
         }
@@ -830,6 +860,12 @@ pub fn gen_case(tier: Tier, seed: u64, idx: u64) -> Case {
     let doc = gen_doc(&mut drng, target);
     let mut rng = Rng::for_case(seed, "C17", idx);
     let radius = if member < 5 { RADII[member as usize] } else { *rng.pick(&RADII) };
+    // members 8 and 9 of a group: the same text as UTF-16 (little / big endian) through the reader
+    let utf16 = if member >= 8 && !doc.starts_with('\u{feff}') { Some(member == 9) } else { None };
+    let raw: Vec<u8> = match utf16 {
+        Some(be) => crate::prop::c10::to_utf16(&doc, be).0,
+        None => doc.as_bytes().to_vec(),
+    };
     let entry = if member < 3 {
         REntry::Str
     } else {
@@ -837,12 +873,12 @@ pub fn gen_case(tier: Tier, seed: u64, idx: u64) -> Case {
             3 => Chunking::Fixed(1),
             4 => Chunking::Whole,
             5 => Chunking::Fixed(100),
-            _ => wl::gen_chunking(doc.as_bytes(), &mut rng),
+            _ => wl::gen_chunking(&raw, &mut rng),
         };
         let faults = if rng.chance(1, 4) && !doc.is_empty() {
             // a fault somewhere in the second half: often inside the diagnostic read-ahead
             vec![ReadFault {
-                pos: FaultPos::AtByte(rng.range(doc.len() / 2, doc.len())),
+                pos: FaultPos::AtByte(rng.range(raw.len() / 2, raw.len())),
                 kind: *rng.pick(&HARD_KINDS),
                 after: *rng.pick(&[After::Sticky, After::ThenEof, After::ThenResume]),
             }]
@@ -857,6 +893,7 @@ pub fn gen_case(tier: Tier, seed: u64, idx: u64) -> Case {
         radius,
         with_snippet: !rng.chance(1, 10),
         entry,
+        utf16,
     })
 }
 
